@@ -1,4 +1,4 @@
-import Proofs.Lemmas.ParserLags
+import Proofs.Lemmas.ParserAccepted
 import Proofs.C02
 /-
 C15 — All ways of building a class from symbols yield the same model.
@@ -88,6 +88,112 @@ theorem no_equation_pass (conv : Symbol → String) (syms : List Symbol) (h : se
 
 example : renderBody defaultConverter [⟨some "X", .exogenous, .int 0, .int 0, none, none⟩] = "        pass" := by
   rfl
+
+/-! ### No statement is silently discarded (symbol level of C13, after fix d65c5fa) -/
+
+/-- **statement_defines_one.**  An accepted equation statement yields exactly one endogenous symbol carrying an
+    equation; it carries *this* statement's `equation` and `code`, so it is selected for the class body; and the
+    statement assigns exactly one name. -/
+theorem statement_defines_one {ts : List Parser.Term} {e c : String} {G : List Symbol}
+    (w : ∀ t ∈ ts, t.type = .function → t.index = .none) (h : stmtSymbols (.eqn ts e c) = .ok G) :
+    (G.filter isDefined).length = 1 ∧ (selected G).length = 1 ∧
+    (∀ g ∈ G, isDefined g = true → g.equation = some e ∧ g.code = some c ∧ carriesCode g = true) ∧
+    DefinesOne (.eqn ts e c) := by
+  have hok : StmtOK (.eqn ts e c) := by
+    intro s hs hf
+    simp only [stmtOcc, termSyms] at hs
+    obtain ⟨t, ht, rfl⟩ := List.mem_map.1 hs
+    exact w t (List.mem_filter.1 ht).1 hf
+  simp only [stmtSymbols] at h
+  obtain ⟨hf, hone⟩ := symbolsOfTerms_ok hok h
+  obtain ⟨_, _, hs, _⟩ := fold_from_empty hf
+  have hdef : ∀ g ∈ G, isDefined g = true → g.equation = some e ∧ g.code = some c ∧ carriesCode g = true := by
+    intro g hg hd
+    unfold isDefined at hd
+    simp only [Bool.and_eq_true, decide_eq_true_eq, Option.isSome_iff_exists] at hd
+    obtain ⟨hgt, q, hq⟩ := hd
+    obtain ⟨s, hs', hsq⟩ := (hs g hg).eqAtt q hq
+    have hsm := (List.mem_filter.1 hs').1
+    have hst : s.type = .endogenous := by
+      unfold termSyms at hsm
+      obtain ⟨t, _, rfl⟩ := List.mem_map.1 hsm
+      by_cases hte : t.type = .endogenous
+      · exact hte
+      · simp [termSymbol, hte] at hsq
+    obtain ⟨h1, h2⟩ := termSyms_endogenous_eq hsm hst
+    have e1 := (hs g hg).eqAll s hs' e h1
+    have e2 := (hs g hg).codeAll s hs' c h2
+    exact ⟨e1, e2, by simp [carriesCode, hgt, e1, e2]⟩
+  have hsel : selected G = G.filter isDefined := by
+    unfold selected
+    apply List.filter_congr
+    intro g hg
+    by_cases hd : isDefined g = true
+    · rw [hd, (hdef g hg hd).2.2]
+    · have hd' : isDefined g = false := by simpa using hd
+      rw [hd']
+      have hnv : g.type ≠ .verbatim := by
+        obtain ⟨s, hs', hst⟩ := (hs g hg).typeAtt
+        have hsm := (List.mem_filter.1 hs').1
+        unfold termSyms at hsm
+        obtain ⟨t, ht, rfl⟩ := List.mem_map.1 hsm
+        rw [← hst]; simpa [termSymbol_type] using (List.mem_filter.1 ht).2
+      unfold isDefined at hd'
+      unfold carriesCode
+      by_cases hge : g.type = .endogenous
+      · simp [hge] at hd'; simp [hge, hd']
+      · simp [hge, hnv]
+  refine ⟨hone, by rw [hsel]; exact hone, hdef, ?_⟩
+  show (definedNames (.eqn ts e c)).length = 1
+  rw [← defined_count hf]; exact hone
+
+/-- **every_statement_contributes.**  In an accepted script every equation statement's `equation`/`code` is carried by
+    a selected symbol, and every verbatim statement's symbol is selected: each statement reaches the class body. -/
+theorem every_statement_contributes {S : List Stmt} {syms : List Symbol} (h : parseModel S = .ok syms)
+    (w1 : WellIndexed S) :
+    (∀ ts e c, Stmt.eqn ts e c ∈ S →
+      ∃ s ∈ selected syms, s.type = .endogenous ∧ s.equation = some e ∧ s.code = some c) ∧
+    (∀ e c, Stmt.verb e c ∈ S → (⟨none, .verbatim, .none, .none, some e, some c⟩ : Symbol) ∈ selected syms) := by
+  obtain ⟨D, V, rfl, hV, hk, hS, hE, hVS⟩ := accepted_char h w1
+  obtain ⟨D', V', hsy, hsel, _, _⟩ := selected_char h w1
+  constructor
+  · intro ts e c hst
+    -- the statement was accepted, so it assigns a variable: an ENDOGENOUS term
+    have hone := Fsic.Parser.accepted_iff_definesOne h w1 ts e c hst
+    have hne : definedNames (.eqn ts e c) ≠ [] := by
+      intro hnil; have : (definedNames (.eqn ts e c)).length = 1 := hone; rw [hnil] at this; cases this
+    obtain ⟨k, hkm⟩ := List.exists_mem_of_ne_nil _ hne
+    simp only [definedNames, mem_firstApp, List.mem_map, List.mem_filter, stmtOcc] at hkm
+    obtain ⟨s, ⟨hs1, hs2⟩, _⟩ := hkm
+    have hst' : s.type = .endogenous := by simpa using hs2
+    obtain ⟨he, hc⟩ := termSyms_endogenous_eq hs1 hst'
+    have hsm : s ∈ scriptOcc S := stmtOcc_subset hst s hs1
+    obtain ⟨g, hg, hgn⟩ := hE s hsm
+    have hmem : s ∈ (scriptOcc S).filter (fun x => x.name = g.name) := List.mem_filter.2 ⟨hsm, by simp [hgn]⟩
+    have hle := (hS g hg).typeLe s hmem
+    rw [hst'] at hle
+    have hgt := typeLe_of_endogenous hle
+    have e1 := (hS g hg).eqAll s hmem e he
+    have e2 := (hS g hg).codeAll s hmem c hc
+    refine ⟨g, ?_, hgt, e1, e2⟩
+    unfold selected
+    exact List.mem_filter.2 ⟨List.mem_append_left _ hg, by simp [carriesCode, hgt, e1, e2]⟩
+  · intro e c hst
+    unfold selected
+    refine List.mem_filter.2 ⟨List.mem_append_right _ ?_, rfl⟩
+    rw [hVS]; exact List.mem_flatMap.2 ⟨_, hst, by simp [verbSyms]⟩
+
+/-- **body_equation_count.**  The number of code blocks in the class body (= converter calls, by
+    `converter_called_once_each`) is the number of distinct assigned names plus the number of verbatim statements. -/
+theorem body_equation_count {S : List Stmt} {syms : List Symbol} (h : parseModel S = .ok syms) (w1 : WellIndexed S) :
+    (selected syms).length = (scriptDefinedNames S).length + (S.flatMap verbSyms).length := by
+  obtain ⟨D, V, _, hsel, hV, hlen⟩ := selected_char h w1
+  rw [hsel, List.length_append, hlen, hV]
+
+example : (parseModel [.eqn [⟨"Y", .endogenous, .int 0⟩, ⟨"X", .exogenous, .int 0⟩] "Y[t] = X[t]" "c1",
+                       .verb "`z`" "z",
+                       .eqn [⟨"Z", .endogenous, .int 0⟩, ⟨"Y", .exogenous, .int (-1)⟩] "Z[t] = Y[t-1]" "c2"]).toOption.map
+      (fun syms => (selected syms).map (·.code)) = some [some "c1", some "c2", some "z"] := by rfl
 
 /-! ### The converter's text is inserted verbatim -/
 
